@@ -8,7 +8,7 @@
    level used; if an abstract step rejects them (not an admissible choice) or the two levels
    stop agreeing, the observation is replaced by [BAD] so the tie is reported broken.  Hence
    every replayed crate step is (checked to be) an instance of a proved step. *)
-From DS Require Import Base.Prelude Base.FloatBits Model.Freq.
+From DS Require Import Base.Prelude Base.FloatBits Base.Oracles Model.Freq Spec.FreqLayout.
 Open Scope Z_scope.
 
 Definition BAD : list Z := [-777].
@@ -38,6 +38,27 @@ Definition full_eq (c : fc) (a : fi) : bool :=
 Definition perm_check (order cs : counters) : bool :=
   (length order =? length cs)%nat && distinct_keys (map fst order)
   && forallb (fun p => (0 <? snd p)%N && (cs_get cs (fst p) =? snd p)%N) order.
+
+(* size_of::<Option<i64>>() + size_of::<u64>() + size_of::<u16>(): what one slot of
+   ReversePurgeItemHashMap<i64> occupies (keys, values, states) *)
+Definition SLOT_BYTES : N := 26.
+
+(* serialize() decoded into a layout-independent observation: the pairs sorted by item *)
+Definition canon_of (bs : list N) : list Z :=
+  Nz (N.of_nat (length bs)) :: map Nz (firstn 6 bs) ++
+  (if (length bs <? 32)%nat then [0; 0; 0] else
+   let n := le_val (firstn 4 (skipn 8 bs)) in
+   let hd3 := [Nz n; Nz (le_val (firstn 8 (skipn 16 bs))); Nz (le_val (firstn 8 (skipn 24 bs)))] in
+   match read_u64s (N.to_nat n) (skipn 32 bs) with
+   | Some (vals, rest) =>
+       match read_u64s (N.to_nat n) rest with
+       | Some (items, _) =>
+           hd3 ++ flat_map (fun p => [fst p; Nz (snd p)])
+                    (msort (fun a b => Z.leb (fst a) (fst b)) (combine (map i64_of_u64 items) vals))
+       | None => hd3
+       end
+   | None => hd3
+   end).
 
 (* ---------- slots ---------- *)
 Definition sl : Type := (fc * fi)%type.
@@ -84,7 +105,7 @@ Definition step (st0 : state) (o : zop) : state * list Z :=
               end
           | _ => ((st, good), PANIC)
           end
-      | None => ((st, good), PANIC)
+      | None => ((st, good), EMPTY)
       end
   | 2 => (* query slot item hash *)
       match get_slot st a0 with
@@ -94,7 +115,7 @@ Definition step (st0 : state) (o : zop) : state * list Z :=
           out st ((e =? fi_estimate ab a1)%N && (l =? fi_lower ab a1)%N && (u =? fi_upper ab a1)%N
                   && (fc_offset c =? fi_max_error ab)%N)
               [Nz e; Nz l; Nz u; Nz (fc_offset c)]
-      | None => ((st, good), PANIC)
+      | None => ((st, good), EMPTY)
       end
   | 3 => (* stats slot *)
       match get_slot st a0 with
@@ -102,7 +123,7 @@ Definition step (st0 : state) (o : zop) : state * list Z :=
           out st (quick_eq c ab && (fc_max_cap c =? fi_max_cap ab)%N && Bool.eqb (fc_is_empty c) (fi_is_empty ab))
               [Nz (fc_offset c); Nz (fc_weight c); Nz (fc_num_active c); zbool (fc_is_empty c);
                Nz (rp_lg (fc_map c)); Nz (fc_cur_cap c); Nz (fc_lg_max c); Nz (fc_max_cap c)]
-      | None => ((st, good), PANIC)
+      | None => ((st, good), EMPTY)
       end
   | 4 => (* merge dst src *)
       match get_slot st a0, get_slot st a1 with
@@ -116,7 +137,7 @@ Definition step (st0 : state) (o : zop) : state * list Z :=
               end
           | _ => ((st, good), PANIC)
           end
-      | _, _ => ((st, good), PANIC)
+      | _, _ => ((st, good), EMPTY)
       end
   | 5 => (* frequent slot error_type mode threshold *)
       match get_slot st a0 with
@@ -125,12 +146,12 @@ Definition step (st0 : state) (o : zop) : state * list Z :=
           let rows := if a2 =? 0 then fc_frequent nfp c else fc_frequent_thr nfp (zN a3) c in
           let arows := sort_rows (if a2 =? 0 then fi_frequent nfp ab else fi_frequent_thr nfp (zN a3) ab) in
           out st (list_eqb row_eqb rows arows) (Nz (fc_offset c) :: flat_map zrow rows)
-      | None => ((st, good), PANIC)
+      | None => ((st, good), EMPTY)
       end
   | 6 => (* serialize slot *)
       match get_slot st a0 with
       | Some (c, ab) => out st (full_eq c ab) (map Nz (fc_serialize c))
-      | None => ((st, good), PANIC)
+      | None => ((st, good), EMPTY)
       end
   | 7 => (* roundtrip src dst *)
       match get_slot st a0 with
@@ -141,7 +162,7 @@ Definition step (st0 : state) (o : zop) : state * list Z :=
           | Err => ((st, good), ERR)
           | Stuck => ((st, good), PANIC)
           end
-      | None => ((st, good), PANIC)
+      | None => ((st, good), EMPTY)
       end
   | 8 => (* deserialize slot k hash_1..hash_k bytes... *)
       let k := Z.to_nat a1 in
@@ -159,12 +180,38 @@ Definition step (st0 : state) (o : zop) : state * list Z :=
           | Ok c' => let ab' := fi_reset ab in out (put_slot st a0 (c', ab')) (full_eq c' ab') []
           | _ => ((st, good), PANIC)
           end
-      | None => ((st, good), PANIC)
+      | None => ((st, good), EMPTY)
       end
   | 10 => (* epsilon slot *)
       match get_slot st a0 with
       | Some (c, _) => out st true [fc_epsilon_bits c]
-      | None => ((st, good), PANIC)
+      | None => ((st, good), EMPTY)
+      end
+  | 11 => (* parse slot k hash_1..hash_k bytes...: the slot is cleared first.  The crate's peak allocation is
+             the two vectors (8 bytes per announced counter each) plus the table of the announced current map
+             (SLOT_BYTES per slot), allocated once the image has passed validation; the harness reports a peak
+             above 64 * len + 1 MiB as ALLOC and drops the value. *)
+      let k := Z.to_nat a1 in
+      let hashes := map zN (firstn k (skipn 2 a)) in
+      let bytes := map zN (skipn (2 + k) a) in
+      let cleared := set_nth (Z.to_nat a0) None st in
+      match fc_parse bytes with
+      | Ok img =>
+          let nvals := match img with ImgEmpty _ _ => 0%N | ImgFull _ _ _ _ vs _ => N.of_nat (length vs) end in
+          if (64 * N.of_nat (length bytes) + 1048576 <? SLOT_BYTES * fc_deser_table_slots bytes + 16 * nvals)%N
+          then ((cleared, good), ALLOC)
+          else match fc_build img hashes with
+               | Ok c' => out (put_slot st a0 (c', fi_of_fc c')) true [1]
+               | Err => ((cleared, good), ERR)
+               | Stuck => ((cleared, good), PANIC)
+               end
+      | Err => ((cleared, good), ERR)
+      | Stuck => ((cleared, good), PANIC)
+      end
+  | 12 => (* canon slot *)
+      match get_slot st a0 with
+      | Some (c, ab) => out st (full_eq c ab) (canon_of (fc_serialize c))
+      | None => ((st, good), EMPTY)
       end
   | _ => ((st, good), PANIC)
   end.
@@ -271,6 +318,7 @@ Fixpoint prop_from (st : ostate) (ops : list zop) (obs : list (list Z)) : bool :
              | Some s => prop_from (op_ st a0 (Some (mkO [] 0 (o_size s) true))) r obr
              | None => prop_from st r obr
              end
+      | 11 => prop_from (op_ st a0 None) r obr
       | _ => prop_from st r obr
       end
   | _, _ => true
@@ -278,5 +326,174 @@ Fixpoint prop_from (st : ostate) (ops : list zop) (obs : list (list Z)) : bool :
 
 Definition prop_ok (c : case) : bool := prop_from (repeat None 8) (c_ops c) (c_obs c).
 
+(* =====================================================================================
+   Codec oracles (C11, C12, C13, C14, C18), evaluated on the crate's observations only.
+   ===================================================================================== *)
+
+(* ---- C11: deserialize(serialize(s)) behaves exactly as s.  Op 7 (roundtrip src dst) is the fork;
+   new / deserialize / parse re-initialise a slot. ---- *)
+Definition prop_roundtrip : case -> bool := twin_oracle 7 [0; 8; 11].
+
+Definition is_obs (ob v : list Z) : bool := list_eqb Z.eqb ob v.
+
+(* the exact history of every slot (same bookkeeping as prop_from); a round trip copies it *)
+Definition o_next (st : ostate) (code : Z) (a ob : list Z) : ostate :=
+  let a0 := nth 0 a 0 in let a1 := nth 1 a 0 in let a2 := nth 2 a 0 in
+  if is_obs ob EMPTY then st else
+  match code with
+  | 0 => op_ st a0 (Some (mkO [] 0 (N.max (zN a1) 8) true))
+  | 1 => match og st a0 with
+         | Some s => op_ st a0 (Some (mkO (tm_add (o_truth s) a1 (zN a2)) (o_total s + zN a2) (o_size s) (o_uniform s)))
+         | None => st
+         end
+  | 4 => match og st a0, og st a1 with
+         | Some s, Some t => op_ st a0 (Some (mkO (tm_merge (o_truth s) (o_truth t)) (o_total s + o_total t) (o_size s)
+                                                  (o_uniform s && o_uniform t && (o_size s =? o_size t)%N)))
+         | _, _ => op_ st a0 None
+         end
+  | 7 => if is_obs ob [1] then op_ st a1 (og st a0) else st
+  | 8 => if is_obs ob [1] then op_ st a0 None else st
+  | 9 => match og st a0 with
+         | Some s => op_ st a0 (Some (mkO [] 0 (o_size s) true))
+         | None => st
+         end
+  | 11 => op_ st a0 None
+  | _ => st
+  end.
+
+Definition sort_pairs (l : list (Z * N)) : list (Z * N) := msort (fun a b => Z.leb (fst a) (fst b)) l.
+Definition pair_eqb (a b : Z * N) : bool := (fst a =? fst b) && (snd a =? snd b)%N.
+
+(* ---- C12 / C18: the crate's image, decoded by the independent layout decoder, is the state the
+   Spec knows from the history: weight exactly; every (item, count) of the image brackets the
+   exact frequency (count <= f <= count + offset); items distinct; no more counters than the
+   capacity of the announced current map; size = 8 (no weight) | 32 + 16 * counters. ---- *)
+Definition image_ok (s : ospec) (ob : list Z) : bool :=
+  match spec_decode (map zN ob) with
+  | None => false
+  | Some d =>
+      let lg := N.log2 (o_size s) in
+      ((a_lg_max d =? lg) && (3 <=? a_lg_cur d) && (a_lg_cur d <=? lg)
+       && (a_weight d =? o_total s)
+       && (a_offset d + sumN (map snd (a_counters d)) <=? a_weight d))%N
+      && distinct_keys (map fst (a_counters d))
+      && forallb (fun p => let f := tm_get (o_truth s) (fst p) in
+                           ((0 <? snd p) && (snd p <=? f) && (f <=? snd p + a_offset d))%N) (a_counters d)
+      && (N.of_nat (length (a_counters d)) <=? spec_capacity (a_lg_cur d))%N
+      && Nat.eqb (length ob) (spec_size (o_total s) (length (a_counters d)))
+  end.
+
+Fixpoint layout_from (st : ostate) (ops : list zop) (obs : list (list Z)) : bool :=
+  match ops, obs with
+  | (code, a) :: r, ob :: obr =>
+      if is_obs ob PANIC then true else
+      let ok :=
+        match code, og st (nth 0 a 0) with
+        | 6, Some s => if is_obs ob EMPTY then true else image_ok s ob
+        | 3, Some s => if is_obs ob EMPTY then true else
+                       (* C18: never more active items than maximum_map_capacity = 3/4 of the map size *)
+                       let act := zN (nth 2 ob 0) in let mcap := zN (nth 7 ob 0) in
+                       ((act <=? 3 * o_size s / 4) && (mcap =? 3 * o_size s / 4))%N
+        | _, _ => true
+        end in
+      ok && layout_from (o_next st code a ob) r obr
+  | _, _ => true
+  end.
+Definition prop_layout (c : case) : bool := layout_from (repeat None 8) (c_ops c) (c_obs c).
+
+(* ---- C14 ---- *)
+Definition no_panic : case -> bool := no_panic_oracle.
+
+(* ---- C13: an image that is valid under the layout (decoded by the independent decoder from
+   the bytes the generator's spec encoder produced) must be accepted, and the sketch must then
+   hold exactly that state: accessors, bounds of tracked and untracked items, frequent_items,
+   re-serialization, a further round trip, and a merge into a fresh sketch. ---- *)
+Record fexp := mkFE { fe_abs : fi_abs; fe_lgcur : bool (* lg_cur_map_size is part of the expectation *) }.
+Definition fstate := list (option fexp).
+Definition fg (st : fstate) (i : Z) : option fexp := nth (Z.to_nat i) st None.
+Definition fp (st : fstate) (i : Z) (v : option fexp) : fstate := set_nth (Z.to_nat i) v st.
+
+Definition abs_valid (a : fi_abs) : bool :=
+  ((3 <=? a_lg_cur a) && (a_lg_cur a <=? a_lg_max a) && (a_lg_max a <=? 62)
+   && (a_weight a <? 18446744073709551616)
+   && (a_offset a + sumN (map snd (a_counters a)) <=? a_weight a)
+   && (N.of_nat (length (a_counters a)) <=? spec_capacity (a_lg_cur a)))%N
+  && distinct_keys (map fst (a_counters a))
+  && forallb (fun p => (0 <? snd p)%N) (a_counters a).
+
+Fixpoint abs_get (l : list (Z * N)) (x : Z) : N :=
+  match l with [] => 0%N | (y, v) :: r => if x =? y then v else abs_get r x end.
+
+Definition frows (a : fi_abs) (nfp : bool) (thr : N) : list Z :=
+  let off := a_offset a in
+  flat_map (fun p => let lo := snd p in let up := (snd p + off)%N in
+                     if (if nfp then thr <? lo else thr <? up)%N then [fst p; Nz up; Nz up; Nz lo] else [])
+           (sort_pairs (a_counters a)).
+
+Definition fexp_check (e : fexp) (code : Z) (a ob : list Z) : bool :=
+  let d := fe_abs e in
+  let a1 := nth 1 a 0 in let a2 := nth 2 a 0 in let a3 := nth 3 a 0 in
+  match code with
+  | 2 => let c := abs_get (a_counters d) a1 in
+         is_obs ob [Nz (if (0 <? c)%N then c + a_offset d else 0)%N; Nz c; Nz (c + a_offset d)%N; Nz (a_offset d)]
+  | 3 => let n := N.of_nat (length (a_counters d)) in
+         (nth 0 ob 0 =? Nz (a_offset d)) && (nth 1 ob 0 =? Nz (a_weight d)) && (nth 2 ob 0 =? Nz n)
+         && (nth 3 ob 0 =? zbool (n =? 0)%N)
+         && (if fe_lgcur e then (nth 4 ob 0 =? Nz (a_lg_cur d)) && (nth 5 ob 0 =? Nz (spec_capacity (a_lg_cur d))) else true)
+         && (nth 6 ob 0 =? Nz (a_lg_max d)) && (nth 7 ob 0 =? Nz (spec_capacity (a_lg_max d)))
+  | 5 => let thr := if a2 =? 0 then a_offset d else N.max (zN a3) (a_offset d) in
+         is_obs ob (Nz (a_offset d) :: frows d (negb (a1 =? 0)) thr)
+  | 6 => match spec_decode (map zN ob) with
+         | Some d' => ((a_lg_max d' =? a_lg_max d) && (a_weight d' =? a_weight d) && (a_offset d' =? a_offset d))%N
+                      && (if fe_lgcur e then (a_lg_cur d' =? a_lg_cur d)%N else true)
+                      && list_eqb pair_eqb (sort_pairs (a_counters d')) (sort_pairs (a_counters d))
+                      && Nat.eqb (length ob) (spec_size (a_weight d) (length (a_counters d)))
+         | None => false
+         end
+  | _ => true
+  end.
+
+Fixpoint foreign_from (st : fstate) (ops : list zop) (obs : list (list Z)) : bool :=
+  match ops, obs with
+  | (code, a) :: r, ob :: obr =>
+      let a0 := nth 0 a 0 in let a1 := nth 1 a 0 in
+      if is_obs ob PANIC then true else
+      if is_obs ob EMPTY then foreign_from st r obr else
+      match code with
+      | 11 => let bytes := map zN (skipn (2 + Z.to_nat a1) a) in
+              match spec_decode bytes with
+              | Some d => if abs_valid d
+                          then (* a valid image must not be rejected *)
+                               negb (is_obs ob ERR) &&
+                               foreign_from (fp st a0 (if is_obs ob [1] then Some (mkFE d true) else None)) r obr
+                          else foreign_from (fp st a0 None) r obr
+              | None => foreign_from (fp st a0 None) r obr
+              end
+      | 0 => foreign_from (fp st a0 (Some (mkFE (mkFA (N.max (N.log2 (zN a1)) 3) 3 0 0 []) true))) r obr
+      | 7 => foreign_from (if is_obs ob [1] then fp st a1 (fg st a0) else st) r obr
+      | 4 => (* merge into a sketch without weight: the result holds the partner's state when it fits *)
+             let st' := match fg st a0, fg st a1 with
+                        | Some e, Some t =>
+                            if (a_weight (fe_abs t) =? 0)%N then st
+                            else if ((a_weight (fe_abs e) =? 0) &&
+                                     (N.of_nat (length (a_counters (fe_abs t))) <=? spec_capacity (a_lg_max (fe_abs e))))%N
+                            then fp st a0 (Some (mkFE (mkFA (a_lg_max (fe_abs e)) 0 (a_weight (fe_abs t)) (a_offset (fe_abs t))
+                                                            (a_counters (fe_abs t))) false))
+                            else fp st a0 None
+                        | _, _ => fp st a0 None
+                        end in
+             foreign_from st' r obr
+      | 1 | 9 => foreign_from (fp st a0 None) r obr
+      | 8 => foreign_from (if is_obs ob [1] then fp st a0 None else st) r obr
+      | _ => match fg st a0 with
+             | Some e => fexp_check e code a ob && foreign_from st r obr
+             | None => foreign_from st r obr
+             end
+      end
+  | _, _ => true
+  end.
+Definition prop_foreign (c : case) : bool := foreign_from (repeat None 8) (c_ops c) (c_obs c).
+
 (* oracles by number (tools/families/freq.py: ORACLES) *)
-Definition oracles : list (Z * (case -> bool)) := [(0, prop_ok)].
+Definition oracles : list (Z * (case -> bool)) :=
+  [(0, prop_ok); (1, prop_roundtrip); (2, prop_layout); (3, no_panic); (4, prop_foreign)].
